@@ -346,6 +346,84 @@ pub fn putresult_structural(out: &mut ShardOut) {
     }
 }
 
+/// setup histories that leave exactly `l` entries in list `list` of the given cache type
+fn fill_list(kind: Kind, list: usize, l: u32) -> Option<(Cfg, Vec<Op>)> {
+    let puts = |n: u32| -> Vec<Op> { (0..n).map(Op::Put).collect() };
+    Some(match (kind, list) {
+        (Kind::Lru, 0) => (Cfg::lru(5), puts(l)),
+        (Kind::TwoQ, 0) => (Cfg::twoq(5, 0.5, 1.0), puts(l)),
+        (Kind::TwoQ, 1) => {
+            let mut o = puts(l);
+            o.extend((0..l).map(|k| Op::Get(k, false)));
+            (Cfg::twoq(5, 0.5, 1.0), o)
+        }
+        (Kind::TwoQ, 2) => (Cfg::twoq(4, 0.5, 1.0), puts(4 + l)),
+        (Kind::Arc, 0) => (Cfg::arc(5), puts(l)),
+        (Kind::Arc, 1) => {
+            let mut o = puts(l);
+            o.extend((0..l).map(|k| Op::Get(k, false)));
+            (Cfg::arc(5), o)
+        }
+        (Kind::Arc, 2) => (Cfg::arc(4), puts(4 + l)),
+        (Kind::Arc, 3) => {
+            // fill the frequent list, then push its entries out through ghost hits on B1
+            if l > 2 {
+                return None;
+            }
+            let mut o = puts(2);
+            o.extend([Op::Get(0, false), Op::Get(1, false)]);
+            o.extend(puts(4)[2..].iter().copied());
+            o.extend([Op::Put(10), Op::Put(11)]);
+            if l == 0 {
+                return Some((Cfg::arc(2), vec![]));
+            }
+            (Cfg::arc(2), o)
+        }
+        _ => return None,
+    })
+}
+
+fn iter_exhaustive(ctx: &Ctx, props: Props, out: &mut ShardOut) {
+    let mut idx = 0u64;
+    for kind in [Kind::Lru, Kind::TwoQ, Kind::Arc] {
+        let nl = kind.list_names().len();
+        let fams: &[Fam] = if kind == Kind::Lru { &FAMS } else { &FAMS[..10] };
+        for list in 0..nl {
+            for l in 0..=4u32 {
+                let (cfg, setup) = match fill_list(kind, list, l) {
+                    Some(x) => x,
+                    None => continue,
+                };
+                for &fam in fams {
+                    idx += 1;
+                    if idx % ctx.nshards != ctx.shard % ctx.nshards {
+                        continue;
+                    }
+                    let uni: Vec<u32> = (0..12).collect();
+                    let mut opts = RunOpts::new(props, uni);
+                    opts.check_from = setup.len();
+                    // the setup is only trusted to leave *some* list; the monitor compares the
+                    // iterator with the hook's walk of whatever is there
+                    let steps = (l + 2) as u8;
+                    for pat in 0..(1u32 << steps) {
+                        for (write, clone_at) in [(false, 255u8), (true, (pat % (steps as u32 + 1)) as u8)] {
+                            let mut h = setup.clone();
+                            h.push(Op::Iter(IterSpec { list: list as u8, fam, steps, pat, write, clone_at }));
+                            let r = run_history(&cfg, KeyType::Tracked, &h, &opts, &mut out.cov);
+                            out.notes.bump("iter-exhaustive-cases");
+                            if !r.violations.is_empty() {
+                                let mut o2 = opts.clone();
+                                o2.check_from = 0;
+                                record(out, &cfg, KeyType::Tracked, &h, &o2, r.violations);
+                            }
+                        }
+                    }
+                }
+            }
+        }
+    }
+}
+
 /// the engine-based check of one property on one shard
 pub fn engine_suite(ctx: &Ctx) -> ShardOut {
     let mut out = ShardOut::default();
@@ -392,6 +470,12 @@ pub fn engine_suite(ctx: &Ctx) -> ShardOut {
                 }
             }
         }
+    }
+
+    // ---- 1b. C14: for list lengths 0..4 every next/next_back interleaving of length len+2,
+    //          for every iterator family of every list that can be filled deterministically
+    if prop == "C14" {
+        iter_exhaustive(ctx, props, &mut out);
     }
 
     // ---- 2. bounded-exhaustive exploration, configurations dealt round-robin to shards
